@@ -349,7 +349,55 @@ func partitionDesc(owners map[int32][]uint32) *ring.PartitionRingDesc {
 }
 
 func checkPartitionLayout(owners map[int32][]uint32) error {
+	return checkPartitionLayoutStates(owners, nil)
+}
+
+// checkPartitionLayoutStates: partitions listed in states are not active. Lookups (on the whole ring) skip
+// them, so the ranges that coincide with the lookups are those reported by the ring of the active partitions.
+func checkPartitionLayoutStates(owners map[int32][]uint32, states map[int32]ring.PartitionState) error {
 	d := partitionDesc(owners)
+	if len(states) > 0 {
+		full := partitionDesc(owners)
+		for pid, st := range states {
+			pd := full.Partitions[pid]
+			pd.State = st
+			full.Partitions[pid] = pd
+			delete(d.Partitions, pid)
+		}
+		if len(d.Partitions) == 0 {
+			return nil
+		}
+		whole, err := ring.NewPartitionRing(*full)
+		if err != nil {
+			return fmt.Errorf("NewPartitionRing: %v", err)
+		}
+		act, err := ring.NewPartitionRing(*d)
+		if err != nil {
+			return fmt.Errorf("NewPartitionRing (active partitions): %v", err)
+		}
+		var all []uint32
+		for _, t := range owners {
+			all = append(all, t...)
+		}
+		rangesOf := map[string]ring.TokenRanges{}
+		for pid := range d.Partitions {
+			tr, err := act.GetTokenRangesForPartition(pid)
+			if err != nil {
+				return fmt.Errorf("GetTokenRangesForPartition(%d): %v", pid, err)
+			}
+			rangesOf[fmt.Sprint(pid)] = tr
+			for _, k := range keysFor(all) {
+				owner, err := whole.ActivePartitionForKey(k)
+				if err != nil {
+					return fmt.Errorf("ActivePartitionForKey(%d): %v", k, err)
+				}
+				if (owner == pid) != tr.IncludesKey(k) {
+					return fmt.Errorf("partition %d key %d: the ring (states %v) routes the key to %d, the ranges %v of the active partitions' ring include=%v", pid, k, states, owner, tr, tr.IncludesKey(k))
+				}
+			}
+		}
+		return checkTiling(rangesOf)
+	}
 	pr, err := ring.NewPartitionRing(*d)
 	if err != nil {
 		return fmt.Errorf("NewPartitionRing: %v", err)
@@ -552,6 +600,19 @@ func TestPartitionRangesRapid(t *testing.T) {
 		}
 		if err := checkPartitionLayout(owners); err != nil {
 			rt.Fatalf("%v\npartitions=%v", err, owners)
+		}
+		// the same layout with some partitions not active
+		states := map[int32]ring.PartitionState{}
+		for p := range owners {
+			if st := rapid.SampledFrom([]ring.PartitionState{ring.PartitionActive, ring.PartitionActive, ring.PartitionInactive, ring.PartitionPending}).Draw(rt, "state"); st != ring.PartitionActive {
+				states[p] = st
+			}
+		}
+		if len(states) > 0 && len(states) < len(owners) {
+			vx.Class("partition_layouts_with_partitions_that_are_not_active", 1)
+			if err := checkPartitionLayoutStates(owners, states); err != nil {
+				rt.Fatalf("%v\npartitions=%v", err, owners)
+			}
 		}
 	})
 }
